@@ -49,8 +49,8 @@ MaxNet == 65534
 MaxStation == 255
 MaxPort == 65535
 
-Min(a, b) == IF a < b THEN a ELSE b
-Max(a, b) == IF a > b THEN a ELSE b
+Min2(a, b) == IF a < b THEN a ELSE b
+Max2(a, b) == IF a > b THEN a ELSE b
 Pow2(k) == <<1, 2, 4, 8, 16, 32, 64, 128, 256>>[k + 1]          \* k \in 0..8
 IsOctets(s) == \A i \in 1..Len(s) : s[i] \in 0..255
 
@@ -58,7 +58,7 @@ IsOctets(s) == \A i \in 1..Len(s) : s[i] \in 0..255
 (* IPv4 arithmetic, per octet (TLC integers are 32 bit: a 32-bit address   *)
 (* is never formed as one integer).  A /m mask puts NetBits(m, i) network  *)
 (* bits into octet i; the remaining bits of that octet span HostSpan.      *)
-NetBits(m, i)  == Max(0, Min(8, m - 8 * (i - 1)))
+NetBits(m, i)  == Max2(0, Min2(8, m - 8 * (i - 1)))
 HostSpan(m, i) == Pow2(8 - NetBits(m, i))
 MaskOctets(m)      == LET f(i) == 256 - HostSpan(m, i) IN <<f(1), f(2), f(3), f(4)>>
 SubnetOctets(a, m) == LET f(i) == a[i] - (a[i] % HostSpan(m, i)) IN <<f(1), f(2), f(3), f(4)>>
